@@ -10,7 +10,7 @@ PROP = "C17"
 LEVEL = "exploration"
 CASES = {"quick": 160, "thorough": 18000}
 SHARDS = {"quick": 8, "thorough": 16}
-TIMEOUT = {"quick": 300, "thorough": 3400}
+TIMEOUT = {"quick": 900, "thorough": 6000}
 ANCHORS = [
     "resolver_service.py:get_flask_blueprint", "resolver_service.py:get_flask_app", "resolver_service.py:get_fastapi_router",
     "resolver_service.py:get_fastapi_app", "resolver_service.py:get_flask_blueprint.<locals>.resolve",
